@@ -32,7 +32,7 @@ class C03(EvalCheck):
                 ks = [[rng.rint(0, o + 1) for o in t.orders]]
                 qs.append((xs, sorted(set(masks)), ks, [], cl))
             cases.append((t, qs))
-        return cases
+        return add_history_twins(rng, cases)
     def oracle(self, t, q, iout, mout):
         """the property on the implementation alone: every path returns the same bits"""
         fails = []
